@@ -14,6 +14,7 @@ from . import common
 from .expr import ClaripyInterp, Z3Interp, consts_of, div_nodes, has_var, show, vars_of, width_of
 
 PROPS = ("C01", "C04", "C05", "C06", "C10")
+RESOURCE_CAP = 1 << 24   # bits; shifting by more than this many bits materializes >2 MiB integers per operation
 
 
 def _free_names(t):
@@ -185,6 +186,15 @@ class ShapeRun:
                     break
             if not fit_ok:
                 continue
+            if prop == "C04" and path.resources:
+                # resource obligation: no Python-level shift by an amount the caller can make astronomically large
+                big = z3.Or(*[k > RESOURCE_CAP for _, k in path.resources])
+                q = E.check_sat(s, big)
+                if q == "sat":
+                    s.add(big)
+                    failures.append(("resource", "a Python integer shift by an unbounded, caller-controlled amount "
+                                     "(memory/time exhaustion)", s, None))
+                    break
             if path.kind == "exc":
                 ok, why = _allowed_exception(tree, path.result, s)
                 if ok is None:
@@ -286,6 +296,9 @@ class ShapeRun:
         from pysym import engine as E
         from pysym import glue
 
+        if path.resources:
+            s = E.new_solver(path.pc, self.query_ms)
+            s.add(*[k <= 4096 for _, k in path.resources])  # keep the native sample cheap (C04 owns the big amounts)
         if E.check_sat(s) != "sat":
             return None
         m = s.model()
@@ -300,7 +313,8 @@ class ShapeRun:
             nat = ClaripyInterp(consts).ev(self.tree)
             natc = _canon(nat, None)
         except Exception as e:  # noqa: BLE001
-            natc = f"EXC {type(e).__name__}"
+            self.native_exc = f"{type(e).__name__}: {e}"
+            return None   # an exception on the native side is C04's subject, not an encoding mismatch
         finally:
             E.ENG.decisions, E.ENG.pos, E.ENG.pc, E.ENG.obligations = saved
         if natc != sym:
@@ -339,6 +353,17 @@ def replay(case):
     consts = {i: claripy.BVV(int(case["consts"][str(i)]), w) for i, w in cs}
     zi = Z3Interp({i: z3.BitVecVal(int(case["consts"][str(i)]), w) for i, w in cs})
     desc = f"tree={show(tree)} consts={case['consts']}"
+    if prop == "C04":
+        import resource
+        import signal
+
+        resource.setrlimit(resource.RLIMIT_AS, (6 << 30, 6 << 30))
+
+        def _hang(*_):
+            raise TimeoutError("construction did not finish in 60 s")
+
+        signal.signal(signal.SIGALRM, _hang)
+        signal.alarm(60)
     try:
         r = ClaripyInterp(consts).ev(tree)
         r2 = ClaripyInterp(consts).ev(tree)
